@@ -11,7 +11,7 @@ form(node, *expected_sources) returns
           turn this into ANALYSIS-ERROR (exit 2), never into a violation."""
 import ast
 
-from ..model import dotted
+from ..model import dotted, canonicalise
 
 
 def _strip(node):
@@ -60,11 +60,12 @@ def _bag(sk):
 def form(node, *expected):
   if node is None:
     return 'shape'
+  node = canonicalise(node)
   got = _strip(node)
   sk = skeleton(node)
   slot = False
   for src in expected:
-    exp = ast.parse(src, mode='eval').body
+    exp = canonicalise(ast.parse(src, mode='eval')).body
     if _strip(exp) == got:
       return 'ok'
     esk = skeleton(exp)
